@@ -131,7 +131,7 @@ class ExprMixin:
         return self.const(node.value)
 
     def ev_Name(self, node):
-        return self.lookup(node.id, node.lineno)
+        return self.lookup(node.id, getattr(node, "lineno", 0))
 
     def ev_Tuple(self, node):
         return PyTuple([self.ev(e) for e in node.elts])
@@ -183,6 +183,8 @@ class ExprMixin:
                 kt, vt = self.join(kt, k.ty), self.join(vt, v.ty)
         else:
             return SV(None, T.Dict(T.UNKNOWN, T.UNKNOWN), fresh=True)
+        if vt.kind == "none":
+            vt = T.Opt(T.ANY)  # {"k": None}: a value type is needed
         out = self.coerce(base, T.Dict(kt, vt)) if base is not None else self.empty_dict(kt, vt)
         mk, has, val = self.dct(out)
         h, vv = has(out.term), val(out.term)
@@ -208,13 +210,55 @@ class ExprMixin:
 
     def ev_IfExp(self, node):
         c = self.truthy(self.ev(node.test))
-        if self.spec_mode:
-            a, b = self.evv(node.body), self.evv(node.orelse)
-            a, b, t = self.unify(a, b, node.lineno)
-            return SV(z3.If(c, a.term, b.term), t)
+        cs = z3.simplify(c)
+        if z3.is_true(cs):
+            return self.ev(node.body)
+        if z3.is_false(cs):
+            return self.ev(node.orelse)
+        if self.in_pure_mode() or (self._pure_expr(node.body) and self._pure_expr(node.orelse)
+                                   and not self._has_display(node)):
+            self.cond_guards.append(c)
+            try:
+                a = self.ev(node.body)
+            finally:
+                self.cond_guards.pop()
+            self.cond_guards.append(z3.Not(c))
+            try:
+                b = self.ev(node.orelse)
+            finally:
+                self.cond_guards.pop()
+            if isinstance(a, SV) and isinstance(b, SV) and a.ty.kind == "bool" and b.ty.kind == "bool":
+                return SV(z3.If(c, a.term, b.term), T.BOOL)
+            try:
+                return self._merge(c, a, b, node.lineno)
+            except Unsupported:
+                if self.in_pure_mode():
+                    raise
         if self.branch(c, f"ifexp@{node.lineno}:"):
             return self.ev(node.body)
         return self.ev(node.orelse)
+
+    def _has_display(self, node) -> bool:
+        return False
+
+    def _merge(self, c, a, b, line):
+        """value-level `a if c else b`"""
+        if isinstance(a, LazySeq):
+            a = self.materialize(a)
+        if isinstance(b, LazySeq):
+            b = self.materialize(b)
+        if not isinstance(a, SV) or not isinstance(b, SV):
+            raise Unsupported(f"conditional expression over non-values (line {line})")
+        if a.term is None and a.ty.kind in ("list", "dict", "set") and b.term is not None:
+            a = self.coerce(a, b.ty, line)
+        if b.term is None and b.ty.kind in ("list", "dict", "set") and a.term is not None:
+            b = self.coerce(b, a.ty, line)
+        if a.term is None and b.term is None and a.ty.kind != "none":
+            return a
+        a2, b2, t = self.unify(a, b, line)
+        if t.kind == "none":
+            return a2
+        return SV(z3.If(c, a2.term, b2.term), t, fresh=True)
 
     def ev_BoolOp(self, node):
         is_and = isinstance(node.op, ast.And)
@@ -234,7 +278,13 @@ class ExprMixin:
                 cur = self.ev(nxt)
                 continue
             if self.in_pure_mode() or self._pure_expr(nxt):
-                other = self.ev(nxt)
+                # the next operand is only evaluated by python when the result is still open: its safety
+                # obligations are guarded accordingly
+                self.cond_guards.append(tv if is_and else z3.Not(tv))
+                try:
+                    other = self.ev(nxt)
+                finally:
+                    self.cond_guards.pop()
                 cur = self._select(tv if not is_and else z3.Not(tv), cur, other, node.lineno)
             else:
                 go_on = self.branch(tv if is_and else z3.Not(tv), f"bool@{node.lineno}:")
